@@ -57,17 +57,85 @@ def worker_for(kind, wk, app):
     return cfg, w
 
 
+FAILS = ["before_start", "after_start", "iter_first", "iter_after_empty", "iter_mid", "write_empty_then_raise", "write_mid"]
+
+
+def build_app(ap, chunks, calls):
+    """application program: optional replacement of the first start_response by a second one with exc_info
+    (before any output), optional failure point"""
+    import sys as _sys
+    fail = ap.get("fail")
+    first = ap.get("first")          # [status, cl] of a call that is replaced before any output
+
+    def hdrs_for(cl):
+        h = [("Content-Type", "text/plain")]
+        if cl != NOCL:
+            h.append(("Content-Length", str(cl)))
+        return h
+
+    def app(environ, start_response):
+        calls.append(1)
+        if fail == "before_start":
+            raise drv.AppError("boom")
+        if first:
+            start_response(STATUS_TEXT.get(first[0], "%d X" % first[0]), hdrs_for(first[1]) + [("X-First", "1")])
+            try:
+                raise drv.AppError("replace")
+            except drv.AppError:
+                write = start_response(STATUS_TEXT.get(ap["status"], "%d X" % ap["status"]), hdrs_for(ap["cl"]), _sys.exc_info())
+        else:
+            write = start_response(STATUS_TEXT.get(ap["status"], "%d X" % ap["status"]), hdrs_for(ap["cl"]))
+        if fail == "after_start":
+            raise drv.AppError("boom")
+        if fail == "write_empty_then_raise":
+            write(b"")
+            raise drv.AppError("boom")
+        if fail == "write_mid":
+            write(chunks[0] if chunks else b"x")
+            raise drv.AppError("boom")
+        if ap["prod"] == "write" and not fail:
+            for c in chunks:
+                write(c)
+            return []
+        if ap["prod"] in ("file", "filenofd") and not fail:
+            return _file_iter(environ, ap, chunks)
+
+        def gen():
+            if fail == "iter_first":
+                raise drv.AppError("boom")
+            if fail == "iter_after_empty":
+                yield b""
+                raise drv.AppError("boom")
+            for i, c in enumerate(chunks):
+                yield c
+                if fail == "iter_mid" and i == 0:
+                    raise drv.AppError("boom")
+            if fail == "iter_mid":
+                raise drv.AppError("boom")
+        return gen() if fail else list(chunks)
+    return app
+
+
+def _file_iter(environ, ap, chunks):
+    import io as _io
+    import tempfile as _tf
+    data = b"".join(chunks)
+    if ap["prod"] == "file":
+        f = _tf.TemporaryFile(dir=drv.SCRATCH)
+        f.write(data)
+        f.flush()
+    else:
+        f = _io.BytesIO(data)
+    f.seek(ap.get("off", 0))
+    return environ["wsgi.file_wrapper"](f)
+
+
 def exchange(rq, wk, ap, send_fail_at=None):
     """-> (trace dict, abstract wire for conformance, raw Result)"""
     chunks = chunk_bytes(ap["chunks"])
-    hdrs = [("Content-Type", "text/plain")]
-    if ap["cl"] != NOCL:
-        hdrs.append(("Content-Length", str(ap["cl"])))
     status = ap["status"]
-    spec = drv.AppSpec(STATUS_TEXT.get(status, "%d X" % status), hdrs, ap["prod"], chunks,
-                       file_offset=ap.get("off", 0), fail=ap.get("fail"))
     calls = []
-    app = drv.make_app(spec, calls)
+    app = build_app(ap, chunks, calls)
     cfg, w = worker_for(wk["kind"], wk, app)
     r = drv.serve(wk["kind"], cfg, [request_bytes(rq)], app, worker=w, send_fail_at=send_fail_at)
     produced = b"".join(chunks)
@@ -75,14 +143,17 @@ def exchange(rq, wk, ap, send_fail_at=None):
         produced = produced[ap.get("off", 0):]
     nobody = rq["head"] or status in (204, 304)
     expected = b"" if nobody else (produced[:ap["cl"]] if ap["cl"] != NOCL else produced)
-    wb = ((ap["cl"] == NOCL or len(produced) == ap["cl"] or nobody) and (not nobody or len(produced) == 0)
-          and not ap.get("fail"))
+    fail = ap.get("fail") or "none"
+    wb = ((ap["cl"] == NOCL or len(produced) == ap["cl"] or nobody) and (not nobody or len(produced) == 0))
+    # did the failure strike after the first byte of the application's response could have been sent?
+    started = fail in ("iter_after_empty", "iter_mid", "write_empty_then_raise", "write_mid")
     recs = oracle_wire.read_responses(r.wire, r.closed, ["HEAD" if rq["head"] else "GET"])
     ev = []
     if recs:
         f = recs[0]
         junk = sum(x.get("junk", 0) for x in recs[1:]) + sum(1 for x in recs[1:] if x.get("wellformed"))
         if f.get("wellformed"):
+            junk += f.get("junk", 0)
             ev.append({"e": "resp", "wellformed": True, "nresp": sum(1 for x in recs if x.get("wellformed")),
                        "junk": junk, "status": f["status"], "conn": f["conn"], "te": f["te"], "cl": f["cl"],
                        "mode": f["mode"], "chunks": f["chunks"], "body": len(f["body"]),
@@ -97,7 +168,7 @@ def exchange(rq, wk, ap, send_fail_at=None):
     is_open = bool((r.kept and not r.closed) or r.kept_until_eof)
     ev.append({"e": "after", "open": is_open})
     trace = {"rq": rq, "app": {"status": status, "cl": -1 if ap["cl"] == NOCL else ap["cl"], "total": len(produced),
-                               "wb": bool(wb)}, "wk": wk["kind"], "ev": ev}
+                               "wb": bool(wb), "fail": fail, "started": bool(started)}, "wk": wk["kind"], "ev": ev}
     awire = None
     if recs and recs[0].get("wellformed"):
         f = recs[0]
@@ -181,6 +252,22 @@ def c02(ctx):
         clchoice = rng.random()
         cl = NOCL if clchoice < 0.4 else produced if clchoice < 0.85 else rng.choice([0, 1, max(0, produced - 1), produced + 3])
         ap = {"status": status, "cl": cl, "prod": prod, "chunks": sizes, "off": off}
+        x = rng.random()
+        if x < 0.15:
+            # the application fails at a chosen point (before / after start_response, before the first byte,
+            # after an empty first item, in the middle of the body)
+            ap["fail"] = rng.choice(FAILS)
+            rq["head"] = False                      # (the server's own error page always carries a body)
+            ap["status"] = status = rng.choice([200, 201, 404])
+            ap["prod"] = "write" if ap["fail"].startswith("write") else "iter"
+            ap["off"] = 0
+            if ap["fail"] in ("iter_mid", "write_mid") and not [n for n in sizes[:1] if n > 0]:
+                ap["chunks"] = [5] + sizes
+            if cl != NOCL:
+                ap["cl"] = sum(ap["chunks"])
+        elif x < 0.3:
+            # an earlier start_response call (own status / Content-Length) is replaced with exc_info before any output
+            ap["first"] = [rng.choice([200, 201, 404]), rng.choice([NOCL, 0, 7, 100])]
         t, aw, res = exchange(rq, wk, ap)
         traces.append(t)
         metas.append({"src": "rand", "rq": rq, "wk": wk, "app": ap})
@@ -531,8 +618,12 @@ def c19(ctx):
         total = sum(sizes)
         produced = max(0, total - off) if prod in ("file", "filenofd") else total
         hdrs = [("Content-Type", "text/plain")]
-        if rng.random() < 0.5:
+        x = rng.random()
+        if x < 0.45:
             hdrs.append(("Content-Length", str(produced)))
+        elif x < 0.6 and produced > 1 and not nobody:
+            # the application produces more than it declared: the surplus is cut, and must not be counted
+            hdrs.append(("Content-Length", str(rng.choice([0, 1, produced // 2, produced - 1]))))
         spec = drv.AppSpec(STATUS_TEXT[status], hdrs, prod, chunk_bytes(sizes), file_offset=off)
         add(rng.choice(kinds), rng.choice([DEFAULT_FMT] + ["%%(%s)s" % a for a in ATOMS]), request_bytes(rq), spec, "completed",
             "prod=%s" % prod)
@@ -547,18 +638,18 @@ def c19(ctx):
             for fmt in [DEFAULT_FMT, "%(r)s", "%(u)s %({x-evil}i)s"]:
                 add(kind, fmt, b, drv.AppSpec(), "rejected", "rejected")
     # 3. client-controlled data in every atom: request target, header values, basic-auth user
-    evil_targets = [b"/a\nb", b"/a\rb", b"/a\r\nGET /fake HTTP/1.1", b"/a?x=\n127.0.0.1 - - [x] \"GET /forged\" 200", b"/a\tb", b"/a%0Ab", b"/a\x0bb",
+    evil_targets = [b"/two\n", b"/two\r", b"/a\nb", b"/a\rb", b"/a\r\nGET /fake HTTP/1.1", b"/a?x=\n127.0.0.1 - - [x] \"GET /forged\" 200", b"/a\tb", b"/a%0Ab", b"/a\x0bb",
                     b"/a\x1cb", b"/\"quoted\"", b"/a\x7fb"]
-    evil_users = [b"bob\nforged", b"bob\rforged", b"bob\r\n10.0.0.1 - admin", b"bob", b"\"bob\"", b"b\x0bob", b"bo\x85b"]
+    evil_users = [b"bob\n", b"bob\r", b"admin - - 'GET /secret HTTP/1.1' 200 7\n", b"bob\nforged", b"bob\rforged", b"bob\r\n10.0.0.1 - admin", b"bob", b"\"bob\"", b"b\x0bob", b"bo\x85b"]
     evil_vals = [b"v\x0bx", b"v\tx", b"caf\xe9", b"\"q\"", b"v\x1cx", b"v\x7fx"]
     atoms = [DEFAULT_FMT] + ["%%(%s)s" % a for a in ATOMS]
     for fmt in atoms:
         for kind in (kinds if not ctx.quick else [rng.choice(kinds)]):
-            for tgt in (evil_targets if not ctx.quick else rng.sample(evil_targets, 4)):
+            for tgt in (evil_targets if not ctx.quick else evil_targets[:2] + rng.sample(evil_targets[2:], 3)):
                 req = b"GET " + tgt + b" HTTP/1.1\r\nHost: h\r\nX-Evil: " + rng.choice(evil_vals) + b"\r\nReferer: " + \
                     rng.choice(evil_vals) + b"\r\nUser-Agent: " + rng.choice(evil_vals) + b"\r\n\r\n"
                 add(kind, fmt, req, drv.AppSpec(headers=[("Content-Type", "text/plain"), ("X-App", "v")]), "other", "target")
-            for u in (evil_users if not ctx.quick else rng.sample(evil_users, 3)):
+            for u in (evil_users if not ctx.quick else evil_users[:3] + rng.sample(evil_users[3:], 2)):
                 tok = base64.b64encode(u + b":pw")
                 req = b"GET /u HTTP/1.1\r\nHost: h\r\nAuthorization: Basic " + tok + b"\r\n\r\n"
                 add(kind, fmt, req, drv.AppSpec(headers=[("Content-Length", "5")]), "completed", "authuser")
